@@ -1,11 +1,12 @@
 """C18 - an alias is indistinguishable from the variable it names."""
+from contracts.c09_containers import InterfaceInit
 from contracts.c11_copy import InitOwnership
 from contracts.c17_c18_mixins import ALIAS_CONTRACTS, ALIAS_EXPORT
 from props.mixins_bounded import AliasTwin
 from verif.spec import PropertySpec
 
 PROPERTY = PropertySpec(
-    id='C18', contracts=list(ALIAS_CONTRACTS) + list(ALIAS_EXPORT) + [InitOwnership('alias')], bounded=[AliasTwin()], level='other',
+    id='C18', contracts=list(ALIAS_CONTRACTS) + list(ALIAS_EXPORT) + [InitOwnership('alias'), InterfaceInit()], bounded=[AliasTwin()], level='other',
     explanation='The four forwarding methods of AliasMixin are executed symbolically from source with a symbolic name: the parent is called exactly once '
                 'with the resolved name (alias -> variable, anything else unchanged), the rest of the key and the value unchanged, and its result '
                 'returned. Chain resolution in __init__ (now bounded loop, repaired), constructor keywords, "no extra storage" and the export '
